@@ -102,6 +102,12 @@ class Proc:
         return s
 
 
+class CommentProc(Proc):
+    """a process whose command is a multi-line script that begins with a comment line"""
+    def pattern(self):
+        return "# generated script for " + self.name + "\n" + Proc.pattern(self)
+
+
 class RawProc(Proc):
     """a process whose command pattern is given literally"""
     def __init__(self, name, rawpat, **kw):
